@@ -106,4 +106,358 @@ theorem rightShift64_small {w n c : Nat} (hn : n < 64) (hw : w < W) (hc : c < W)
     simp only []
     rw [e2, Nat.add_comm]
 
+/-! ## whole-limb amounts -/
+
+theorem two_pow_ge_64 {n : Nat} (h : 64 ≤ n) : 2 ^ n = 2 ^ (n - 64) * W := by
+  rw [W_eq_pow, ← Nat.pow_add]; congr 1; omega
+
+theorem two_pow_ge_128 {n : Nat} (h : 128 ≤ n) : 2 ^ n = 2 ^ (n - 128) * (W * W) := by
+  rw [W_eq_pow, ← Nat.pow_add, ← Nat.pow_add]; congr 1; omega
+
+theorem two_pow_ge_256 {n : Nat} (h : 256 ≤ n) : 2 ^ n = 2 ^ (n - 256) * W ^ 4 := by
+  rw [W_eq_pow, ← Nat.pow_mul, ← Nat.pow_add]; congr 1; omega
+
+theorem leftShift64_mid {w n c : Nat} (hw : w < W) (h1 : 64 ≤ n) (h2 : n < 128) :
+    leftShift64 w n c = (c, w * 2 ^ (n - 64) % W) := by
+  unfold leftShift64 shl64
+  rw [if_neg (by omega), if_neg (by omega)]
+  by_cases h : n = 64
+  · subst h; simp [Nat.mod_eq_of_lt hw]
+  · rw [if_neg h, if_pos h2]
+
+theorem leftShift64_big {w n c : Nat} (h : 128 ≤ n) : leftShift64 w n c = (0, 0) := by
+  unfold leftShift64
+  rw [if_neg (by omega), if_neg (by omega), if_neg (by omega), if_neg (by omega)]
+
+theorem rightShift64_mid {w n c : Nat} (h1 : 64 ≤ n) (h2 : n < 128) :
+    rightShift64 w n c = (c, w / 2 ^ (n - 64)) := by
+  unfold rightShift64 shr64
+  rw [if_neg (by omega), if_neg (by omega)]
+  by_cases h : n = 64
+  · subst h; simp
+  · rw [if_neg h, if_pos h2]
+
+theorem rightShift64_big {w n c : Nat} (h : 128 ≤ n) : rightShift64 w n c = (0, 0) := by
+  unfold rightShift64
+  rw [if_neg (by omega), if_neg (by omega), if_neg (by omega), if_neg (by omega)]
+
+/-! ## Uint64 -/
+
+theorem U64.leftShift_spec (u : U64) (n : Nat) (hu : u.WF) :
+    (u.leftShift n).WF ∧ (u.leftShift n).toNat = u.toNat * 2 ^ n % W := by
+  unfold U64.WF at hu
+  unfold U64.leftShift U64.WF U64.toNat
+  simp only []
+  by_cases hn : n < 64
+  · have h := leftShift64_small (c := 0) hn hu (Nat.two_pow_pos n)
+    generalize leftShift64 u.w0 n 0 = r at *
+    generalize u.w0 * 2 ^ n = x at *
+    simp only [W] at *
+    omega
+  · have e : u.w0 * 2 ^ n % W = 0 := by
+      rw [two_pow_ge_64 (by omega), ← Nat.mul_assoc, Nat.mul_mod_left]
+    by_cases hn' : n < 128
+    · rw [leftShift64_mid hu (by omega) hn', e]; exact ⟨show 0 < W by decide, rfl⟩
+    · rw [leftShift64_big (by omega), e]; exact ⟨by decide, rfl⟩
+
+theorem U64.rightShift_spec (u : U64) (n : Nat) (hu : u.WF) :
+    (u.rightShift n).WF ∧ (u.rightShift n).toNat = u.toNat / 2 ^ n := by
+  unfold U64.WF at hu
+  unfold U64.rightShift U64.WF U64.toNat
+  simp only []
+  by_cases hn : n < 64
+  · have h := rightShift64_small (c := 0) hn hu (by decide) (Nat.zero_mod _)
+    rw [h.1, Nat.add_zero]
+    exact ⟨Nat.lt_of_le_of_lt (Nat.div_le_self _ _) hu, rfl⟩
+  · have e : u.w0 / 2 ^ n = 0 := by
+      apply Nat.div_eq_of_lt
+      rw [two_pow_ge_64 (by omega)]
+      exact Nat.lt_of_lt_of_le hu (Nat.le_mul_of_pos_left _ (Nat.two_pow_pos _))
+    by_cases hn' : n < 128
+    · rw [rightShift64_mid (by omega) hn', e]; exact ⟨show 0 < W by decide, rfl⟩
+    · rw [rightShift64_big (by omega), e]; exact ⟨by decide, rfl⟩
+
+/-! ## arithmetic of a right shift across a limb boundary (`p * q = W`) -/
+
+theorem shr_step {p q : Nat} (hpq : p * q = W) (hp : 0 < p) (x w : Nat) :
+    (x * W + w) / p = x / p * W + (x % p * q + w / p) := by
+  have hx := (Nat.div_add_mod x p).symm
+  generalize x / p = a at *
+  generalize x % p = b at *
+  have e : x * W + w = p * (a * W + b * q) + w := by subst hx; rw [← hpq]; grind
+  rw [e, Nat.mul_add_div hp, Nat.add_assoc]
+
+theorem mod_step {p q : Nat} (hpq : p * q = W) (x w : Nat) : (x * W + w) % p = w % p := by
+  rw [← hpq, ← Nat.mul_assoc, Nat.mul_right_comm, Nat.mul_add_mod_self_right]
+
+theorem shr_limb_lt {p q a w : Nat} (hpq : p * q = W) (ha : a < p) (hw : w < W) :
+    a * q + w / p < W := by
+  have h1 : w / p < q := Nat.div_lt_of_lt_mul (hpq ▸ hw)
+  have h2 := Nat.mul_le_mul_right q (Nat.succ_le_of_lt ha)
+  rw [← hpq]; grind
+
+/-! ## Uint128 -/
+
+theorem U128.leftShift_eq (u : U128) (n : Nat) : u.leftShift n =
+    ⟨(leftShift64 u.w1 n (leftShift64 u.w0 n 0).2).1, (leftShift64 u.w0 n 0).1⟩ := rfl
+
+theorem U128.rightShift_eq (u : U128) (n : Nat) : u.rightShift n =
+    ⟨(rightShift64 u.w1 n 0).1, (rightShift64 u.w0 n (rightShift64 u.w1 n 0).2).1⟩ := rfl
+
+theorem U128.leftShift_spec (u : U128) (n : Nat) (hu : u.WF) :
+    (u.leftShift n).WF ∧ (u.leftShift n).toNat = u.toNat * 2 ^ n % (W * W) := by
+  obtain ⟨h1, h0⟩ := hu
+  rw [U128.leftShift_eq]
+  unfold U128.WF U128.toNat
+  simp only []
+  by_cases hn : n < 64
+  · have s0 := leftShift64_small (c := 0) hn h0 (Nat.two_pow_pos n)
+    generalize leftShift64 u.w0 n 0 = r0 at *
+    have s1 := leftShift64_small hn h1 s0.2.2
+    generalize leftShift64 u.w1 n r0.2 = r1 at *
+    rw [Nat.add_mul, Nat.mul_right_comm]
+    generalize u.w0 * 2 ^ n = x0 at *
+    generalize u.w1 * 2 ^ n = x1 at *
+    generalize 2 ^ n = p at *
+    simp only [W] at *
+    omega
+  · by_cases hn' : n < 128
+    · rw [leftShift64_mid h0 (by omega) hn', leftShift64_mid h1 (by omega) hn']
+      simp only []
+      refine ⟨⟨Nat.mod_lt _ (by decide), by decide⟩, ?_⟩
+      rw [two_pow_ge_64 (Nat.le_of_not_lt hn), ← Nat.mul_assoc, Nat.mul_mod_mul_right, Nat.add_mul,
+        Nat.mul_right_comm, Nat.mul_add_mod_self_right, Nat.add_zero]
+    · rw [leftShift64_big (by omega), leftShift64_big (by omega)]
+      simp only []
+      refine ⟨⟨by decide, by decide⟩, ?_⟩
+      rw [two_pow_ge_128 (by omega), ← Nat.mul_assoc, Nat.mul_mod_left, Nat.zero_mul]
+
+theorem U128.rightShift_spec (u : U128) (n : Nat) (hu : u.WF) :
+    (u.rightShift n).WF ∧ (u.rightShift n).toNat = u.toNat / 2 ^ n := by
+  obtain ⟨h1, h0⟩ := hu
+  rw [U128.rightShift_eq]
+  unfold U128.WF U128.toNat
+  simp only []
+  by_cases hn : n < 64
+  · have hpq := two_pow_split (Nat.le_of_lt hn)
+    have hp := Nat.two_pow_pos n
+    have s1 := rightShift64_small (c := 0) hn h1 (by decide) (Nat.zero_mod _)
+    rw [s1.1, s1.2]
+    have s0 := rightShift64_small hn h0 (c := u.w1 % 2 ^ n * 2 ^ (64 - n))
+      (by have := shr_limb_lt (w := 0) hpq (Nat.mod_lt u.w1 hp) (by decide); simpa using this)
+      (Nat.mul_mod_left _ _)
+    rw [s0.1, shr_step hpq hp]
+    have b := shr_limb_lt hpq (Nat.mod_lt u.w1 hp) h0
+    have b1 : u.w1 / 2 ^ n < W := Nat.lt_of_le_of_lt (Nat.div_le_self _ _) h1
+    simp only [Nat.add_zero]
+    exact ⟨⟨b1, by omega⟩, by omega⟩
+  · by_cases hn' : n < 128
+    · rw [rightShift64_mid (by omega) hn', rightShift64_mid (by omega) hn']
+      simp only []
+      refine ⟨⟨by decide, Nat.lt_of_le_of_lt (Nat.div_le_self _ _) h1⟩, ?_⟩
+      rw [two_pow_ge_64 (Nat.le_of_not_lt hn), Nat.mul_comm (2 ^ (n - 64)) W, ← Nat.div_div_eq_div_mul,
+        Nat.zero_mul, Nat.zero_add]
+      congr 1
+      simp only [W] at *; omega
+    · rw [rightShift64_big (by omega), rightShift64_big (by omega)]
+      simp only []
+      refine ⟨⟨by decide, by decide⟩, ?_⟩
+      symm
+      apply Nat.div_eq_of_lt
+      rw [two_pow_ge_128 (by omega)]
+      have : u.w1 * W + u.w0 < W * W := by simp only [W] at *; omega
+      exact Nat.lt_of_lt_of_le this (Nat.le_mul_of_pos_left _ (Nat.two_pow_pos _))
+
+/-! ## Uint256 -/
+
+/-- the four chained `LeftShift64` calls of `Uint256.LeftShift` (after the whole-limb loop) -/
+def U256.shlSmall (u : U256) (n : Nat) : U256 :=
+  let r0 := leftShift64 u.w0 n 0
+  let r1 := leftShift64 u.w1 n r0.2
+  let r2 := leftShift64 u.w2 n r1.2
+  let r3 := leftShift64 u.w3 n r2.2
+  ⟨r3.1, r2.1, r1.1, r0.1⟩
+
+/-- the four chained `RightShift64` calls of `Uint256.RightShift` -/
+def U256.shrSmall (u : U256) (n : Nat) : U256 :=
+  let r3 := rightShift64 u.w3 n 0
+  let r2 := rightShift64 u.w2 n r3.2
+  let r1 := rightShift64 u.w1 n r2.2
+  let r0 := rightShift64 u.w0 n r1.2
+  ⟨r3.1, r2.1, r1.1, r0.1⟩
+
+theorem U256.leftShift_eq (u : U256) (n : Nat) : u.leftShift n =
+    if n ≥ 256 then ⟨0, 0, 0, 0⟩ else U256.shlSmall (U256.limbsLeft 4 u n).1 (U256.limbsLeft 4 u n).2 := rfl
+
+theorem U256.rightShift_eq (u : U256) (n : Nat) : u.rightShift n =
+    if n ≥ 256 then ⟨0, 0, 0, 0⟩ else U256.shrSmall (U256.limbsRight 4 u n).1 (U256.limbsRight 4 u n).2 := rfl
+
+theorem U256.limbsLeft_spec (u : U256) (n : Nat) (hu : u.WF) (hn : n < 256) :
+    (U256.limbsLeft 4 u n).2 = n % 64 ∧ (U256.limbsLeft 4 u n).1.WF ∧
+      (U256.limbsLeft 4 u n).1.toNat = u.toNat * W ^ (n / 64) % W ^ 4 := by
+  obtain ⟨h3, h2, h1, h0⟩ := hu
+  by_cases c1 : n < 64
+  · have e : U256.limbsLeft 4 u n = (u, n) := by
+      simp only [U256.limbsLeft]; rw [if_neg (by omega)]
+    have k : n / 64 = 0 := by omega
+    rw [e, k]; unfold U256.WF U256.toNat
+    simp only [W] at *
+    refine ⟨by omega, ⟨h3, h2, h1, h0⟩, by omega⟩
+  · by_cases c2 : n < 128
+    · have e : U256.limbsLeft 4 u n = (⟨u.w2, u.w1, u.w0, 0⟩, n - 64) := by
+        simp only [U256.limbsLeft]; rw [if_pos (by omega), if_neg (by omega)]
+      have k : n / 64 = 1 := by omega
+      rw [e, k]; unfold U256.WF U256.toNat
+      simp only [W] at *
+      refine ⟨by omega, ⟨h2, h1, h0, by omega⟩, by omega⟩
+    · by_cases c3 : n < 192
+      · have e : U256.limbsLeft 4 u n = (⟨u.w1, u.w0, 0, 0⟩, n - 64 - 64) := by
+          simp only [U256.limbsLeft]; rw [if_pos (by omega), if_pos (by omega), if_neg (by omega)]
+        have k : n / 64 = 2 := by omega
+        rw [e, k]; unfold U256.WF U256.toNat
+        simp only [W] at *
+        refine ⟨by omega, ⟨h1, h0, by omega, by omega⟩, by omega⟩
+      · have e : U256.limbsLeft 4 u n = (⟨u.w0, 0, 0, 0⟩, n - 64 - 64 - 64) := by
+          simp only [U256.limbsLeft]; rw [if_pos (by omega), if_pos (by omega), if_pos (by omega), if_neg (by omega)]
+        have k : n / 64 = 3 := by omega
+        rw [e, k]; unfold U256.WF U256.toNat
+        simp only [W] at *
+        refine ⟨by omega, ⟨h0, by omega, by omega, by omega⟩, by omega⟩
+
+theorem U256.limbsRight_spec (u : U256) (n : Nat) (hu : u.WF) (hn : n < 256) :
+    (U256.limbsRight 4 u n).2 = n % 64 ∧ (U256.limbsRight 4 u n).1.WF ∧
+      (U256.limbsRight 4 u n).1.toNat = u.toNat / W ^ (n / 64) := by
+  obtain ⟨h3, h2, h1, h0⟩ := hu
+  by_cases c1 : n < 64
+  · have e : U256.limbsRight 4 u n = (u, n) := by
+      simp only [U256.limbsRight]; rw [if_neg (by omega)]
+    have k : n / 64 = 0 := by omega
+    rw [e, k]; unfold U256.WF U256.toNat
+    simp only [W] at *
+    refine ⟨by omega, ⟨h3, h2, h1, h0⟩, by omega⟩
+  · by_cases c2 : n < 128
+    · have e : U256.limbsRight 4 u n = (⟨0, u.w3, u.w2, u.w1⟩, n - 64) := by
+        simp only [U256.limbsRight]; rw [if_pos (by omega), if_neg (by omega)]
+      have k : n / 64 = 1 := by omega
+      rw [e, k]; unfold U256.WF U256.toNat
+      simp only [W] at *
+      refine ⟨by omega, ⟨by omega, h3, h2, h1⟩, by omega⟩
+    · by_cases c3 : n < 192
+      · have e : U256.limbsRight 4 u n = (⟨0, 0, u.w3, u.w2⟩, n - 64 - 64) := by
+          simp only [U256.limbsRight]; rw [if_pos (by omega), if_pos (by omega), if_neg (by omega)]
+        have k : n / 64 = 2 := by omega
+        rw [e, k]; unfold U256.WF U256.toNat
+        simp only [W] at *
+        refine ⟨by omega, ⟨by omega, by omega, h3, h2⟩, by omega⟩
+      · have e : U256.limbsRight 4 u n = (⟨0, 0, 0, u.w3⟩, n - 64 - 64 - 64) := by
+          simp only [U256.limbsRight]; rw [if_pos (by omega), if_pos (by omega), if_pos (by omega), if_neg (by omega)]
+        have k : n / 64 = 3 := by omega
+        rw [e, k]; unfold U256.WF U256.toNat
+        simp only [W] at *
+        refine ⟨by omega, ⟨by omega, by omega, by omega, h3⟩, by omega⟩
+
+theorem W_pos : 0 < W := by decide
+
+theorem U256.shlSmall_spec (u : U256) (n : Nat) (hu : u.WF) (hn : n < 64) :
+    (u.shlSmall n).WF ∧ (u.shlSmall n).toNat = u.toNat * 2 ^ n % W ^ 4 := by
+  obtain ⟨h3, h2, h1, h0⟩ := hu
+  unfold U256.shlSmall U256.WF U256.toNat
+  simp only []
+  have s0 := leftShift64_small (c := 0) hn h0 (Nat.two_pow_pos n)
+  generalize leftShift64 u.w0 n 0 = r0 at *
+  have s1 := leftShift64_small hn h1 s0.2.2
+  generalize leftShift64 u.w1 n r0.2 = r1 at *
+  have s2 := leftShift64_small hn h2 s1.2.2
+  generalize leftShift64 u.w2 n r1.2 = r2 at *
+  have s3 := leftShift64_small hn h3 s2.2.2
+  generalize leftShift64 u.w3 n r2.2 = r3 at *
+  have e : (((u.w3 * W + u.w2) * W + u.w1) * W + u.w0) * 2 ^ n =
+      ((u.w3 * 2 ^ n * W + u.w2 * 2 ^ n) * W + u.w1 * 2 ^ n) * W + u.w0 * 2 ^ n := by
+    generalize 2 ^ n = p; generalize W = B; grind
+  rw [e]
+  generalize u.w0 * 2 ^ n = x0 at *
+  generalize u.w1 * 2 ^ n = x1 at *
+  generalize u.w2 * 2 ^ n = x2 at *
+  generalize u.w3 * 2 ^ n = x3 at *
+  generalize 2 ^ n = p at *
+  simp only [W] at *
+  omega
+
+theorem U256.shrSmall_spec (u : U256) (n : Nat) (hu : u.WF) (hn : n < 64) :
+    (u.shrSmall n).WF ∧ (u.shrSmall n).toNat = u.toNat / 2 ^ n := by
+  obtain ⟨h3, h2, h1, h0⟩ := hu
+  unfold U256.shrSmall U256.WF U256.toNat
+  simp only []
+  have hpq := two_pow_split (Nat.le_of_lt hn)
+  have hp := Nat.two_pow_pos n
+  have cl : ∀ w, w % 2 ^ n * 2 ^ (64 - n) < W := fun w => by
+    have := shr_limb_lt (w := 0) hpq (Nat.mod_lt w hp) W_pos; simpa using this
+  have s3 := rightShift64_small (c := 0) hn h3 W_pos (Nat.zero_mod _)
+  rw [s3.1, s3.2]
+  have s2 := rightShift64_small hn h2 (cl u.w3) (Nat.mul_mod_left _ _)
+  rw [s2.1, s2.2]
+  have s1 := rightShift64_small hn h1 (cl u.w2) (Nat.mul_mod_left _ _)
+  rw [s1.1, s1.2]
+  have s0 := rightShift64_small hn h0 (cl u.w1) (Nat.mul_mod_left _ _)
+  rw [s0.1]
+  rw [shr_step hpq hp, shr_step hpq hp, shr_step hpq hp, mod_step hpq, mod_step hpq]
+  have b3 : u.w3 / 2 ^ n < W := Nat.lt_of_le_of_lt (Nat.div_le_self _ _) h3
+  have b2 := shr_limb_lt hpq (Nat.mod_lt u.w3 hp) h2
+  have b1 := shr_limb_lt hpq (Nat.mod_lt u.w2 hp) h1
+  have b0 := shr_limb_lt hpq (Nat.mod_lt u.w1 hp) h0
+  simp only [Nat.add_zero]
+  generalize u.w3 % 2 ^ n * 2 ^ (64 - n) = c3 at *
+  generalize u.w2 % 2 ^ n * 2 ^ (64 - n) = c2 at *
+  generalize u.w1 % 2 ^ n * 2 ^ (64 - n) = c1 at *
+  generalize u.w3 / 2 ^ n = a3 at *
+  generalize u.w2 / 2 ^ n = a2 at *
+  generalize u.w1 / 2 ^ n = a1 at *
+  generalize u.w0 / 2 ^ n = a0 at *
+  simp only [W] at *
+  omega
+
+theorem U256.leftShift_spec (u : U256) (n : Nat) (hu : u.WF) :
+    (u.leftShift n).WF ∧ (u.leftShift n).toNat = u.toNat * 2 ^ n % W ^ 4 := by
+  rw [U256.leftShift_eq]
+  by_cases hn : n ≥ 256
+  · rw [if_pos hn, two_pow_ge_256 hn, ← Nat.mul_assoc, Nat.mul_mod_left]
+    exact ⟨by decide, rfl⟩
+  · rw [if_neg hn]
+    have hl := U256.limbsLeft_spec u n hu (by omega)
+    generalize U256.limbsLeft 4 u n = r at *
+    obtain ⟨u', n'⟩ := r
+    obtain ⟨e1, hu', e2⟩ := hl
+    simp only [] at e1 e2 hu' ⊢
+    have hs := U256.shlSmall_spec u' n' hu' (by omega)
+    refine ⟨hs.1, ?_⟩
+    rw [hs.2, e2, e1, Nat.mod_mul_mod, Nat.mul_assoc]
+    congr 2
+    rw [W_eq_pow, ← Nat.pow_mul, ← Nat.pow_add]
+    congr 1
+    omega
+
+theorem U256.rightShift_spec (u : U256) (n : Nat) (hu : u.WF) :
+    (u.rightShift n).WF ∧ (u.rightShift n).toNat = u.toNat / 2 ^ n := by
+  rw [U256.rightShift_eq]
+  by_cases hn : n ≥ 256
+  · rw [if_pos hn]
+    refine ⟨by decide, ?_⟩
+    symm
+    apply Nat.div_eq_of_lt
+    rw [two_pow_ge_256 hn]
+    exact Nat.lt_of_lt_of_le (U256.toNat_lt hu) (Nat.le_mul_of_pos_left _ (Nat.two_pow_pos _))
+  · rw [if_neg hn]
+    have hl := U256.limbsRight_spec u n hu (by omega)
+    generalize U256.limbsRight 4 u n = r at *
+    obtain ⟨u', n'⟩ := r
+    obtain ⟨e1, hu', e2⟩ := hl
+    simp only [] at e1 e2 hu' ⊢
+    have hs := U256.shrSmall_spec u' n' hu' (by omega)
+    refine ⟨hs.1, ?_⟩
+    rw [hs.2, e2, e1, Nat.div_div_eq_div_mul]
+    congr 1
+    rw [W_eq_pow, ← Nat.pow_mul, ← Nat.pow_add]
+    congr 1
+    omega
+
 end ObiVerif.Fp
